@@ -248,6 +248,14 @@ def gen_cases(ctx):
             else:
                 bad = "str:10.0.0.0 0.0.0.3"
             items = [good, bad] if rng.random() < 0.5 else [bad, good]
+            shape = rng.random()
+            if shape < 0.2:
+                items = [bad]  # nothing but the offending element
+            elif shape < 0.4 and not bad.startswith("10."):
+                # a whole list of the foreign kind (no element of the right class to compare with)
+                kind_ = bad.split(":")[0]
+                items = [f"{kind_}:host 10.0.0.{n + 1}" if kind_ == "other" else f"{kind_}:10.0.{n}.0 0.0.0.255"
+                         for n in range(rng.randint(2, 3))]
             if bad.startswith("10.") and not bad.startswith("10.1.0.0 0.255") and rng.random() < 0.5:
                 # a non-contiguous wildcard completely covered by an earlier address is refused all the same
                 cover = rng.choice(["10.0.0.0/8" if platform == "nxos" or cls == "Address" else "10.0.0.0 255.0.0.0",
